@@ -55,6 +55,38 @@ CHECKS = {
     text="LookupIdx.tla: TLC checks the reference operators IndexInt / NearestRows on every increasing and decreasing grid of the small scope; on grids produced by real runs (uniform, callback-made non-uniform, adaptive, backward, after continuation with an intermediate user lookup, dense on/off) every integer index in [-len-2, len+2], iteration, len, ~5 query times per step plus 4 outside and spanning slices are executed and decided by GetItemJudge.tla against those operators (distances as exact rationals).",
     note="Ties in nearest-sample lookup may be answered by either neighbour; slices are taken along the run.",
     technique="TLC small-scope model + exhaustive per-grid replay judged by TLA+ (GetItemJudge.tla)", design="6/C19"),
+ "C01": dict(level="model_checking",
+    text="RootedTrees.tla enumerates all rooted trees up to order 8 (10 in thorough) with their order and gamma (TLC checks counts, canonicity, extreme gammas); Richardson.tla decides the order of every Aitken-Neville entry for base orders 1..8 and 2..5 levels in exact modular arithmetic (NeverLowerThanBase, StrictlyHigherWithThreeLevels, OrderFormula; two deviations violate them). The tree table is handed to the actuator which takes ONE REAL STEP of every shipped method (and of Richardson wrappers, 2..5 levels) on the tree system y_tau' = prod y_children: component tau equals h^|tau| sum b_i Phi_i(tau), so the order condition holds iff it equals the table's h^|tau|/gamma. OrderJudge.tla decides every method and that every tree was exercised; splitting methods run on the alternating bicoloured tree system; embedded weights must integrate the order-1 tree.",
+    note="Trusted: the B-series theorem (order conditions <=> local error O(h^(p+1)) for all smooth f), TLC, exact Fractions. Orders above the cap (RK1412, RK108 in quick, RadauIIA19) are checked up to the cap only; the measured 2^p convergence rate is not claimed. Known finding: ABAs5o6H / BABs9o7H (generalised order schemes) attain order 4 on general separable systems.",
+    technique="TLC-generated rooted-tree obligations executed as one real step per method, judged by TLA+ (OrderJudge.tla); Richardson tableau algebra model-checked", design="6/C01"),
+ "C02": dict(level="model_checking",
+    text="Integrator.tla model-checks the call protocol (cached slope, attempts, controller and stage-solve verdicts, shrinking retries, give-up) under every environment choice; RKDataflow.tla is the reference stage dataflow: with a right-hand side scripted to return unit vectors and h = +-1 every operation of the stage loop is exact, so two consecutive real steps of every explicit method x dtype are compared call by call, bit for bit, with the class tableau (first-same-as-last reuse, end slope, increment, error estimate). For random nonlinear time-dependent right-hand sides, all 32 methods, shapes, dtypes, both signs of h and a second step after a constant of the right-hand side changed, StageJudge.tla decides the defining equations k_i = f(t+c_i h, y+h sum a_ij k_j), increment = h sum b_i k_i (sub-step composition for splitting methods) from exact-arithmetic misses; traces of implicit methods on non-convergent stage equations are validated by OdeTrace.tla (an unconverged step is never accepted).",
+    note="Read-back covers explicit RK methods; implicit and splitting methods are covered by the defining-equation check, which uses the slopes the integrator holds after the step (stage_values).",
+    technique="TLC model checking (Integrator.tla) + exact coefficient read-back judged by RKDataflow.tla + defining-equation judge (StageJudge.tla) + trace validation", design="6/C02"),
+ "C10": dict(level="model_checking",
+    text="Shear.tla: TLC checks on integer 2x2 maps that every composition of drift/kick shears has determinant one and that a palindromic composition is undone by the negative step. SymplecticJudge.tla decides (structure, exact functionals of the class tables) that the splitting schemes are compositions of pure drifts and kicks, palindromic, summing to one, and that the RK tables flagged symplectic satisfy b_i a_ij + b_j a_ji = b_i b_j; and (observations on real steps of all six symplectic-flagged methods, quadratic and nonlinear separable Hamiltonians, both signs of h, default / user kick masks through set_kick_vars and the constructor, one re-used integrator object for several states) the defect M^T J M - J, the round trip h, -h and the energy error over long runs.",
+    note="Symplecticity for nonlinear H is observed through central differences of real steps (bound 1e-8); the 'every state' quantifier rests on the structural argument.",
+    technique="TLC model (Shear.tla) + table identities + observed one-step maps judged by SymplecticJudge.tla", design="6/C10"),
+ "C11": dict(level="model_checking",
+    text="Stability.tla computes R(z) of the eight schemes with rational 1-2 stage tables in exact integer arithmetic on z = -2^k: no pole, |R| <= 1, stiff decay of the L-stable members, and supplies R(z) to the actuator; one real integrator call per lattice cell (16 implicit methods x 12 decades of |z| + the specification's cells x {real, damped oscillatory 2x2} x sign of h, plus second steps after the decay rate changed) is judged by StabilityJudge.tla: an accepted step never increases |y|, agrees with R(z), the class table is the specification's; raised tolerance errors are recorded as unobserved, cells with |z| <= 1 must be observed.",
+    note="Agreement with R(z) only where the specification can supply it (rational tables, negative real axis). Stage-solver tolerance 1e-10.",
+    technique="exact stability functions in TLA+ (TLC) + lattice of real steps judged by StabilityJudge.tla", design="6/C11"),
+ "C14": dict(level="model_checking",
+    text="Contracts.tla defines the function family (products of (x-r)^m with dyadic roots and odd/even multiplicities, jumps, constants) and the ground truth of every function x bracket cell (sign change over the bracket, sign changes inside, end-point roots); the 1716-cell lattice x scale (1e-6..1e9) x tolerance x dtype is executed on brentsroot and brentsrootvec (groups of up to 16) and BrentJudge.tla decides the contract clause by clause from exact-arithmetic facts.",
+    note="'Root at an end point' is read as |f(end)| <= tol; with an even root inside or a sub-tolerance function the scalar and vectorised solver need not agree (ambiguous regime).",
+    technique="TLC-generated case lattice with ground truth, executed on the real solvers, judged by BrentJudge.tla", design="6/C14"),
+ "C15": dict(level="model_checking",
+    text="Systems.tla defines the system family with ground truth (which systems have a root), checks the no-root claims on an integer grid and that the lattice reaches all four dispatch paths with and without a root; every cell (system x n=1..12 x array shape incl. flat residual x solver x dtype x user/finite-difference Jacobian x good/bad/singular guess) is one real solver call; SolverJudge.tla decides success => ||F|| <= 10 tol sqrt(n), no root => no success, shape preserved.",
+    note="A solver that raises LinAlgError/ValueError claims no success. Residual observed with the user's own F.",
+    technique="TLC-generated lattice with ground truth executed on the real solvers, judged by SolverJudge.tla", design="6/C15"),
+ "C16": dict(level="model_checking",
+    text="JacMaps.tla: polynomial maps with exact integer Jacobians (checked by TLC against exact central differences); DiffRHS.tla: the Jacobian dispatch as a state machine over {request at t1/t2/0, hook, assign, unhook, set order} with/without a jac attribute, explored to length 5. The generated histories are replayed on the real DiffRHS with a time-dependent right-hand side: JacJudge.tla decides per request who answered, that the right-hand side was evaluated at the requested time and near the requested state only, the value and the counters; JacobianWrapper is judged on every map x point x shape x base order x adaptive flag against the specification's Jacobian and layout.",
+    note="Finite-difference accuracy allowances: 256 eps (linear), 1e-8 (quadratic), 1e-4 (non-adaptive), relative to scale.",
+    technique="TLC model checking + TLC-generated histories replayed into the real code, judged by JacJudge.tla", design="6/C16"),
+ "C18": dict(level="model_checking",
+    text="Facade.tla model-checks the facade's own logic (sort, one integrate(t) per requested time, repeated times are no-ops, one column each) on every t_eval of length <= 4; a lattice of real solve_ivp calls (method by name/class, t_eval variants, state shapes (), (1,), (2,), (2,2), args with extra defaulted parameters, max_step, tolerances, dense, events) is compared with the same problem driven through OdeSystem; FacadeJudge.tla decides shapes, pairing, requested times, args order, max_step, result fields, bit-for-bit object-API agreement and scipy agreement at exploration level.",
+    note="Forward spans only. scipy agreement: end state vs DOP853 at 1e-12 within 1000 tolerance units, adaptive methods only.",
+    technique="TLC small-scope model + lattice of real facade calls judged by FacadeJudge.tla", design="6/C18"),
 }
 
 NOT_YET = "check not built yet (work in progress, see DESIGN.md section 11)"
